@@ -800,7 +800,16 @@ def _check_trickery_available() -> bool:
                 assert contexts == contexts_live
                 assert len(contexts) == 1
                 assert contexts[0].varname == "xyzzy" and contexts[0].obj is noop_cm
+            except RecursionError:
+                # We were first called a few frames below the recursion
+                # limit (someone is dumping the stack of a runaway recursion,
+                # say). That says nothing about the interpreter: make do
+                # without the trickery for now, and test again next time.
+                _can_use_trickery = None
+                return False
             except Exception as ex:
+                # (decide first: the reporting below may fail as well)
+                _can_use_trickery = False
                 warnings.warn(
                     "Inspection trickery doesn't work on this interpreter: {!r}. "
                     "Information about context managers will be less detailed. "
@@ -808,7 +817,6 @@ def _check_trickery_available() -> bool:
                     InspectionWarning,
                 )
                 traceback.print_exc()
-                _can_use_trickery = False
         else:
             warnings.warn(
                 "Inspection trickery is not supported on this interpreter: "
